@@ -767,8 +767,8 @@ class Prop:
 # generators
 # ---------------------------------------------------------------------------
 PROBS = [[1, 1], [1, 1], [1, 2], [3, 4], [1, 4], [0, 1], [5, 8]]
-CPROBS = [[1, 1], [1, 1], [1, 1], [3, 4], [1, 2], [0, 1]]
-STRS = ["plain", "T {idx}", "{hier_idx}", "N{idx}/{hier_idx}", "b{{x}}{idx}", "", "Zoë {idx}"]
+CPROBS = [[1, 1], [1, 1], [1, 1], [1, 1], [3, 4], [1, 2], [0, 1]]
+STRS = ["plain", "T {idx}", "{hier_idx}", "N{idx}/{hier_idx}", "b{{x}}{idx}", "", "Zoë {idx}", "H{hier_idx}", "{hier_idx}:{idx}"]
 TEXTS = ["", "lorem", "x{idx}", "h {hier_idx}.", "Ünï {{q}}"]
 KEYS = ["title", "n", "x", "flag", "when", "txt"]
 D0 = datetime.date(2020, 1, 1).toordinal()
@@ -843,19 +843,24 @@ def gen_callback(rng):
     return {"cb": ["del", rng.choice(KEYS)]}
 
 
-def gen_count(rng):
+def gen_count(rng, positive=False):
     r = rng.random()
+    if positive:
+        if r < 0.5:
+            return rng.choice([1, 2, 2, 3, 3])
+        lo = rng.choice([1, 1, 2])
+        return {"R": "RangeI", "lo": lo, "hi": lo + rng.randint(1, 3), "p": [1, 1], "none": None}
     if r < 0.45:
-        return rng.choice([0, 1, 2, 2, 3, 3])
+        return rng.choice([0, 1, 2, 2, 3, 3, 2, 1])
     if r < 0.8:
-        lo = rng.choice([0, 1, 1, 2])
+        lo = rng.choice([0, 1, 1, 1, 2])
         return {"R": "RangeI", "lo": lo, "hi": lo + rng.randint(1, 3), "p": rng.choice(CPROBS), "none": rng.choice([None, None, 1, 2])}
     if r < 0.88:
         vals = [rng.randint(0, 3) for _ in range(rng.randint(1, 3))]
-        return {"R": "Sample", "vals": vals, "counts": None, "p": rng.choice(PROBS)}
+        return {"R": "Sample", "vals": vals, "counts": None, "p": rng.choice(CPROBS)}
     if r < 0.94:
-        return {"R": "Value", "v": rng.randint(1, 2), "p": rng.choice(PROBS)}
-    return {"R": "SparseBool", "p": rng.choice(PROBS)}
+        return {"R": "Value", "v": rng.randint(1, 2), "p": rng.choice(CPROBS)}
+    return {"R": "SparseBool", "p": rng.choice(CPROBS)}
 
 
 def gen_attrs(rng, nmax=4, rnd_share=0.5):
@@ -864,18 +869,17 @@ def gen_attrs(rng, nmax=4, rnd_share=0.5):
 
 
 def gen_def(rng):
-    k = rng.randint(1, 4)
+    k = rng.choice([1, 2, 3, 3, 4, 4])
     T = ["fn", "fail", "cause", "eff"][:k]
     rels = []
-    top = rng.sample(T[:2], rng.randint(1, min(2, k))) if rng.random() < 0.8 else rng.sample(T, rng.randint(1, min(2, k)))
-    top.sort(key=T.index)
+    top = [T[0]] + ([rng.choice(T[1:])] if k > 1 and rng.random() < 0.35 else [])
     if rng.random() < 0.3:
         top.reverse()
 
     def rel_spec():
         spec = gen_attrs(rng)
         if rng.random() < 0.8:
-            spec.insert(rng.randint(0, len(spec)), [":count", gen_count(rng)])
+            spec.insert(rng.randint(0, len(spec)), [":count", gen_count(rng, positive=rng.random() < 0.6)])
         if rng.random() < 0.12:
             spec.insert(rng.randint(0, len(spec)), [":callback", gen_callback(rng)])
         if rng.random() < 0.12:
@@ -887,9 +891,11 @@ def gen_def(rng):
         later = T[i + 1:]
         r = rng.random()
         if later and r < 0.85:
-            cs = rng.sample(later, rng.randint(1, min(2, len(later))))
-            if rng.random() < 0.7:
-                cs.sort(key=T.index)
+            cs = [later[0]] if rng.random() < 0.8 else [rng.choice(later)]
+            if len(later) > 1 and rng.random() < 0.4:
+                cs.append(rng.choice([x for x in later if x not in cs]))
+            if rng.random() < 0.3:
+                cs.reverse()
             rels.append([t, [[c, rel_spec()] for c in cs]])
         elif r < 0.92:
             rels.append([t, []])
